@@ -260,6 +260,69 @@ theorem dispatch_sound (es : List (Endpoint V)) (t : Node V)
   exact ⟨(a e).1 h1, h2⟩
 
 
+/-! ### Unversioned servers -/
+
+theorem insertAllF_spec : ∀ (es : List (Endpoint V)) (t : Node V) (f : Bool) (t' : Node V) (f' : Bool),
+    insertAllF t f es = .ok (t', f') →
+      insertAll t es = .ok t' ∧ f' = (f || es.any fun e => !e.versions.isAll)
+  | [], t, f, t', f', h => by
+    simp only [insertAllF, Except.ok.injEq, Prod.mk.injEq] at h
+    obtain ⟨rfl, rfl⟩ := h
+    simp [insertAll]
+  | e :: es, t, f, t', f', h => by
+    simp only [insertAllF] at h
+    split at h
+    · cases h
+    · rename_i t1 h1
+      obtain ⟨a, b⟩ := insertAllF_spec es t1 _ t' f' h
+      refine ⟨by simp [insertAll, h1, a], ?_⟩
+      rw [b]; simp [Bool.or_assoc]
+
+theorem isAll_iff (r : Range V) : r.isAll = true ↔ r = .all := by
+  cases r <;> simp [Range.isAll]
+
+/-- **C01, unversioned servers.**  A server without a version policy (which
+routes every request without a version, so that every range matches) starts
+iff the table is accepted and every endpoint is unrestricted - a condition on
+the *set* of endpoints, not on the order in which they were registered. -/
+theorem unversioned_server_starts_iff (es : List (Endpoint V)) :
+    unversionedServerStarts es = some true ↔
+      (∃ t, insertAll Node.empty es = .ok t) ∧ ∀ e ∈ es, e.versions = .all := by
+  unfold unversionedServerStarts
+  cases h : insertAllF Node.empty false es with
+  | error err =>
+    simp only [reduceCtorEq, false_iff, not_and]
+    rintro ⟨t, ht⟩
+    exfalso
+    -- insertAllF fails exactly when insertAll fails
+    have : ∀ (es : List (Endpoint V)) (t0 : Node V) (f : Bool) (err : RegErr),
+        insertAllF t0 f es = .error err → insertAll t0 es = .error err := by
+      intro es
+      induction es with
+      | nil => intro t0 f err h; simp [insertAllF] at h
+      | cons e es ih =>
+        intro t0 f err h
+        simp only [insertAllF] at h
+        simp only [insertAll]
+        split at h
+        · rename_i e1 h1; simp only [Except.error.injEq] at h; subst h; simp [h1]
+        · rename_i t1 h1; exact ih t1 _ err h
+    rw [this es Node.empty false err h] at ht; cases ht
+  | ok r =>
+    obtain ⟨t, f⟩ := r
+    obtain ⟨a, b⟩ := insertAllF_spec es Node.empty false t f h
+    simp only [Option.some.injEq, Bool.not_eq_true']
+    rw [b]
+    simp only [Bool.false_or, List.any_eq_false, Bool.not_eq_true']
+    constructor
+    · intro hall
+      refine ⟨⟨t, a⟩, fun e he => (isAll_iff _).1 ?_⟩
+      have := hall e he
+      cases hh : e.versions.isAll <;> simp_all
+    · rintro ⟨-, hall⟩ e he
+      simp [(isAll_iff _).2 (hall e he)]
+
+
 /-! ### The bindings a handler receives -/
 
 /-- **C01, path variables.**  When a template matches a path: every literal
